@@ -4,8 +4,8 @@ import z3
 from pyvc.harness import task
 from pyvc import setmode as SM
 from pyvc import values as V
-from .algos import (ALGOS, COV, AlgoState, depth, install_predicate_contracts, reg, same_set, set_is, slack_num,
-                    transition)
+from .algos import (ALGOS, COV, AlgoState, depth, install_predicate_contracts, same_set, set_is, slack_num,
+                    transition, Specs)
 
 q = z3.Int("q!w")
 
@@ -22,13 +22,9 @@ def _promo(name, method, witness_sets, slack_of, gated=False):
         t.no_raise(paths)
         sl = slack_of(A)
         arrs = {"S": A.S0, "P": A.P0, "U": A.U0}
-        wit = lambda e: z3.Or(*[z3.Select(arrs[w], e) for w in witness_sets])
-        coverable = lambda p: z3.Exists([q], z3.And(wit(q), q != p, COV(A.order, reg(p), reg(q), sl)))
-        new = lambda e: z3.And(z3.Select(A.S0, e), z3.Not(coverable(e)))
+        new = Specs(A).new(A.S0, [arrs[w] for w in witness_sets], A.REG0, sl)
         if gated:
-            s_ = z3.Int("s!w")
-            allmax = z3.ForAll([s_], z3.Implies(z3.Select(A.S0, s_), depth(s_) == A.maxd))
-            open_ = z3.Or(A.enable0, allmax)
+            open_ = Specs(A).gate_open(A.S0, A.enable0)
         else:
             open_ = z3.BoolVal(True)
 
@@ -62,8 +58,7 @@ def _useful(name):
         paths = t.run(ALGOS[name], name + ".useful_updating", [], self_val=A.obj, setmode=True)
         t.must_fail()
         t.no_raise(paths)
-        s_ = z3.Int("s!w")
-        useful = lambda p: z3.And(z3.Select(A.P0, p), z3.Exists([s_], z3.And(z3.Select(A.S0, s_), COV(A.order, reg(s_), reg(p), A.alpha_eps))))
+        useful = Specs(A).useful(A.S0, A.P0, A.REG0, A.alpha_eps)
 
         transition(t, A, paths, "useful_updating", "U_is_exactly_members_of_P_that_can_still_cover_a_candidate", U=useful)
         t.implicit()
